@@ -155,6 +155,7 @@ pub fn from_utf8(b: &[u8]) -> (r: Result<(), Utf8Error>)
 // ---- bytes::Bytes (R12): opaque immutable byte string
 #[verifier::external_body]
 #[verifier::accept_recursive_types]
+#[derive(PartialEq, Eq)]
 pub struct Bytes { inner: Vec<u8> }
 impl Bytes {
     pub uninterp spec fn view(&self) -> Seq<u8>;
